@@ -81,8 +81,12 @@ def main():
                 failures.append(dict(method=cls.__name__, clause="default mask", dim=dim))
             if dim <= 4:
                 for bits in itertools.product([False, True], repeat=dim):
-                    integ = cls((dim,), dtype=np.float64, staggered_mask=np.array(bits))
                     cases += 1
+                    try:
+                        integ = cls((dim,), dtype=np.float64, staggered_mask=np.array(bits))
+                    except Exception as e:
+                        failures.append(dict(method=cls.__name__, clause="explicit mask constructor raises", bits=list(map(bool, bits)), exc=repr(e)))
+                        break
                     k = np.asarray(integ.kick_mask)
                     if not (np.array_equal(k, np.array(bits, dtype=float)) and np.array_equal(np.asarray(integ.drift_mask), 1 - k)):
                         failures.append(dict(method=cls.__name__, clause="explicit mask", bits=list(map(bool, bits))))
